@@ -1,10 +1,12 @@
 """C15 — classical multipoles: Lean theorems (exchange symmetry of all 9x9 blocks and of every rank gating, charge-charge / charge-dipole /
 dipole-dipole point formulas, field = dE/d(dipole), Thole tensor symmetric, traceless and undamped for au3 >= 40) about the polynomials of
-VSiteA<9> + correspondence with the real eeInteractor on generated StaticSite / PolarSite pairs of all rank combinations at 0.5..100 bohr, including
+VSiteA<9>, whose 35 tensor entries are regenerated from eeinteractor.cc on every run (tr_c15), + correspondence with the real eeInteractor on generated StaticSite / PolarSite pairs of all rank combinations at 0.5..100 bohr, including
 translated and rotated pairs and explicit Coulomb sums over shrinking point-charge clusters."""
 import glob, os
 import sys
 import vlib, vbuild
+sys.path.insert(0, os.path.join(vlib.VERIF, "tools", "translate"))
+import tr_c15 as tr
 
 PROP = "C15"
 HARNESS = os.path.join(vlib.VERIF, "harness", "c15.cc")
@@ -16,7 +18,15 @@ def build():
 
 def run(tier, seed, replay=None):
     ck = vlib.Check(PROP, tier, seed)
+    tr_err = None
+    try:
+        ck.extra["translator"] = tr.translate()
+    except Exception as e:
+        tr_err = "translator could not read eeinteractor.cc: %r" % (e,)
     ob = vlib.lean_obligations(PROP, thorough=(tier == "thorough"))
+    if tr_err:
+        ob["ok"] = False
+        ob["failures"].append(tr_err)
     try:
         exe = build()
     except vbuild.BuildError as e:
